@@ -438,6 +438,10 @@ package cluster
 //@ ghost nReg int
 //@ ghostcall tbls.Verify: nReg = nReg + ite(tbls.Verify(a1, a2, a3) == nil, 1, 0)
 //@ ensures result == nil && isV7to11(l.Definition.Version) ==> ncalls(tbls.Verify) == len(l.Validators) && ncalls(registration.NewMessage) == len(l.Validators) && nReg == old(nReg) + len(l.Validators)
+// The fee recipient stored in the lock's registration message is the one the verified signature covers
+// (F-C12a: before the fix it was covered by a padding hash only).
+//@ ensures result == nil && isV7to11(l.Definition.Version) ==> forall(i, 0, len(l.Validators), bytes.Equal(l.Validators[i].BuilderRegistration.Message.FeeRecipient, res(0, registration.NewMessage(eth2p0.BLSPubKey(l.Validators[i].PubKey), l.Definition.FeeRecipientAddresses()[i], uint64(l.Validators[i].BuilderRegistration.Message.GasLimit), l.Validators[i].BuilderRegistration.Message.Timestamp)).FeeRecipient[:]))
+//@ loop 1 invariant !preV7(l.Definition.Version) ==> forall(j, 0, $i, bytes.Equal(l.Validators[j].BuilderRegistration.Message.FeeRecipient, res(0, registration.NewMessage(eth2p0.BLSPubKey(l.Validators[j].PubKey), l.Definition.FeeRecipientAddresses()[j], uint64(l.Validators[j].BuilderRegistration.Message.GasLimit), l.Validators[j].BuilderRegistration.Message.Timestamp)).FeeRecipient[:]))
 //@ loop 1 invariant !preV7(l.Definition.Version) ==> ncalls(tbls.Verify) == $i && ncalls(registration.NewMessage) == $i && nReg == old(nReg) + $i
 //@ canary result != nil
 
